@@ -1626,6 +1626,8 @@ HAND = [
     ('class A { [key] uint8 p; [EmbeddedInstance("A")] uint8 e; }; instance of A { p = 1; e = "instance of A { p = 2; };"; };',
      'any'),
     ('class A { [key] uint8 p; [EmbeddedObject] string e; }; instance of A { p = 1; e = "instance of A { p = 2; };"; };', 'any'),
+    ('class A { [key] uint8 p; [EmbeddedInstance("A")] string e; }; instance of A { p = 2; e = 5; };', 'any'),
+    ('class A { [key] uint8 p; [EmbeddedInstance("A")] string e[]; }; instance of A { p = 2; e = {null}; };', 'any'),
     ('class A : B { };', 'error'), ('class A : A { };', 'error'), ('class A { B ref r; };', 'error'),
     ('class A { A ref r; };', 'ok'), ('class a { }; class A { uint8 x; };', 'any'),
     ('[Key] class A {};', 'any'), ('[Association] class A { };', 'any'), ('[Nope] class A { };', 'error'),
@@ -1672,15 +1674,15 @@ def f_mock():
     pool += [(p + k[1] + s, 'error') for k in POS_KINDS for p in ('', '\n') for s in ('', '\n\nclass Z9 {};\n')]
     # the server is stricter than the grammar (reference properties only in associations)
     pool += [(corpus_text(n, b)[0], 'any' if n in ('instance', 'alias') else 'ok') for n, b in CORPUS]
-    pool += [(REPO_MOF, 'any'), (PROBE, 'ok'), ('#pragma namespace("not_there")\nclass A { };\n', 'any'),
+    first = [(REPO_MOF, 'any'), (PROBE, 'ok'), ('#pragma namespace("not_there")\nclass A { };\n', 'any'),
              ('#pragma namespace("a")\nclass A { };\n#pragma namespace("b")\nclass B : A { };\n', 'error')]
     for kindname in ('faked', 'faked-cached', 'faked-direct'):
         env = Env(kindname)
         budget = (30 if QUICK else 10 ** 6) if kindname == 'faked' else (120 if QUICK else 10 ** 6)
         order = list(range(len(pool)))
         RND.shuffle(order)
-        for i in order[:budget]:
-            text, exp = pool[i]
+        for i in list(range(-len(first), 0)) + order[:budget]:
+            text, exp = pool[i] if i >= 0 else first[i]
             kind, x, ns = case(env, 'mock', (kindname, i), text, expect=exp, hints={'embedded', 'mock'})
             if kind == 'ok' and i % 5 == 0:
                 # compiling the same MOF again: "already exists" rejections by the server
